@@ -548,8 +548,16 @@ fn self_test<S: Scenario>(s: &S) -> Result<(), String> {
 /// Replays a path from a fresh world; returns the mismatches of the last step.
 pub fn replay_path<S: Scenario>(s: &S, cfg: usize, path: &[S::A]) -> (Vec<Mismatch>, Vec<bool>) {
     let (ctx, mut m) = s.build(cfg);
-    let mut last = vec![];
     let mut acc = vec![];
+    // the initial state is probed too (a violation can sit in the root state)
+    let mut last = {
+        let mut o = StepOut::default();
+        let w = s.world(&ctx);
+        let snap = w.snap();
+        s.probe(&ctx, &m, &mut o);
+        w.restore(&snap);
+        o.mismatches
+    };
     for a in path {
         let mut o = StepOut::default();
         s.step(&ctx, &mut m, a, &mut o);
@@ -705,6 +713,7 @@ pub fn run<S: Scenario>(s: &S, opts: &Opts) -> Outcome {
             violations = 1;
             replay_file = report::write_replay(
                 id,
+                &opts.tier,
                 *cfg,
                 &s.config_label(*cfg),
                 &path.iter().map(|a| serde_json::to_value(a).unwrap()).collect::<Vec<_>>(),
@@ -829,7 +838,10 @@ pub fn main_for<S: Scenario>(mk: impl Fn(&str) -> (S, Opts)) -> ! {
     let args: Vec<String> = std::env::args().collect();
     let mode = args.get(1).map(|s| s.as_str()).unwrap_or("quick");
     if mode == "replay" {
-        let (s, _) = mk("thorough");
+        let v: serde_json::Value =
+            serde_json::from_str(&std::fs::read_to_string(&args[2]).expect("replay file")).expect("replay json");
+        let tier = v["tier"].as_str().unwrap_or("thorough").to_string();
+        let (s, _) = mk(&tier);
         std::process::exit(replay_file(&s, &args[2]));
     }
     let tier = if mode == "thorough" { "thorough" } else { "quick" };
